@@ -68,7 +68,8 @@ struct C19 : Scenario {
         } else if (mode == "prog_sinus") {
             c.rf_mod_ampl = std::round(r.uniform(0.05, 2) * 1000) / 1000; c.rf_mod_freq = std::round(d.fs * r.uniform(0.3, 3));
             c.gap = 0; c.wallcond = 0; c.collimator = 0;
-            if (r.chance(0.25)) {   // long run: more than 4096 steps
+            if (r.chance(0.25)) { long ns = derive(c).laststep; c.steps_per_rev = r.uniform(0.05, 0.4); c.rotations = (ns - 0.5) / derive(c).steps; c.rf_mod_freq = std::round(derive(c).fs * r.uniform(0.3, 3)); }
+            else if (r.chance(0.3)) {   // long run: more than 4096 steps
                 c.grid = 12; c.steps = r.range(40, 200); long nsteps = r.range(4200, 9000);
                 c.rotations = (nsteps - 0.5) / (double)c.steps; c.outstep = r.pick(std::vector<long>{0, 1000, 4096, 5000}); c.saveps = 0;
                 c.currents = {1e-3}; c.tdamp = 0; c.renorm = 0;
